@@ -493,6 +493,17 @@ func (qi *QuotaInfo) addPodIfNotPresent(pod *v1.Pod) {
 	qi.PodCache[key] = NewPodInfo(pod)
 }
 
+// updatePodIfPresent replaces the cached object of a pod by its latest version
+func (qi *QuotaInfo) updatePodIfPresent(pod *v1.Pod) {
+	qi.lock.Lock()
+	defer qi.lock.Unlock()
+
+	if podInfo, exist := qi.PodCache[generatePodCacheKey(pod)]; exist {
+		podInfo.pod = pod
+		podInfo.resource = PodRequests(pod)
+	}
+}
+
 func (qi *QuotaInfo) removePodIfPresent(pod *v1.Pod) {
 	qi.lock.Lock()
 	defer qi.lock.Unlock()
